@@ -25,8 +25,8 @@
 (*  dtags   lock opt.mu [dtagsR: TagList      brewind rewind = GET(source) again *)
 (*          once, unlock; dtags2: spawn]      bput2   chunked final PUT     *)
 (*  wait2   blocking wait for all children    bdel    cancel upload (best effort) *)
-(*  put     ManifestPut [fbget, fbput:                                      *)
-(*          referrerPut under muRefTag]                                     *)
+(*  put     ManifestPut [fbget, fbput: referrerPut = read-modify-write of   *)
+(*          the fall-back tag under muRefTag]                               *)
 (*  done    returned (seenCB, deferred cancel)                              *)
 (*                                                                         *)
 (* Error handling as written: the first child error cancels the task's     *)
@@ -128,7 +128,7 @@ NoTask == 0
 Task(k, node, par, pc, tag, sdig, via, inl, rp) ==
   [k |-> k, node |-> node, par |-> par, pc |-> pc, tag |-> tag, sdig |-> sdig, via |-> via, inl |-> inl, rp |-> rp,
    mt |-> "none", ms |-> "none", canc |-> FALSE, pend |-> 0, err |-> "none", res |-> "", got |-> FALSE,
-   own |-> FALSE, hold |-> FALSE, wo |-> NoTask, rtag |-> FALSE]
+   own |-> FALSE, hold |-> FALSE, wo |-> NoTask, rtag |-> FALSE, fbr |-> {}]
 Ids == 1..Len(tasks)
 Q(t) == t.rp \o t.node                     \* the object of task t in its target repository
 QT(t) == t.rp \o t.tag                     \* its tag there
@@ -443,7 +443,9 @@ MPut(i) ==
 
 MFbGet(i) ==       \* referrerPut: lock muRefTag, GET the fall-back tag
   /\ tasks[i].pc = "fbget" /\ refLock = NoTask
-  /\ \/ /\ ~EffCancel(i) /\ tasks' = [tasks EXCEPT ![i].pc = "fbput"] /\ refLock' = i
+  /\ \/ /\ ~EffCancel(i) /\ refLock' = i                 \* (the list as read now is what the PUT will extend)
+        /\ tasks' = [tasks EXCEPT ![i].pc = "fbput",
+                                  ![i].fbr = {p \in fbl : p[1] = tasks[i].rp \o SubjectOf(tasks[i].node)}]
         /\ UNCHANGED <<seen, slots, faults>>
      \/ /\ CanFail(i) /\ Finish(i, ErrOf(i)) /\ faults' = faults + Cost(i) /\ refLock' = NoTask
   /\ UNCHANGED <<Obs, Cnt, conf, ctxC, crashed, refFeat, tagListed, omu, finals, ret, retries>>
@@ -452,7 +454,7 @@ MFbPut(i) ==       \* PUT the updated referrers index under the fall-back tag, u
       s == SubjectOf(t.node)
   IN /\ t.pc = "fbput" /\ refLock = i
      /\ \/ /\ ~EffCancel(i)
-           /\ fbl' = fbl \cup {<<t.rp \o s, Q(t)>>} /\ tt' = SetTag(tt, t.rp \o FbTag(s), t.rp \o ("D:" \o s))
+           /\ fbl' = {p \in fbl : p[1] # t.rp \o s} \cup t.fbr \cup {<<t.rp \o s, Q(t)>>} /\ tt' = SetTag(tt, t.rp \o FbTag(s), t.rp \o ("D:" \o s))
            /\ nWrites' = nWrites + 1
            /\ Finish(i, "ok") /\ UNCHANGED <<faults, tb, tm, written, tagMoved, lateWrite, getc, comc, nBlobReq, nManPut>>
         \/ /\ CanFail(i) /\ Finish(i, ErrOf(i)) /\ faults' = faults + Cost(i) /\ UNCHANGED <<Obs, Cnt>>
